@@ -89,13 +89,14 @@ class SeqV(V):
 class ListV(V):
     """An abstract immutable list with functional access: length `n` (z3 Int) and `get(i)` building
     the element value from a z3 index term.  Used for lists of records / tuples."""
-    __slots__ = ('n', 'get', 'kind', 'tag')
+    __slots__ = ('n', 'get', 'kind', 'tag', 'traj')
 
-    def __init__(self, n, get, kind='list', tag=None):
+    def __init__(self, n, get, kind='list', tag=None, traj=None):
         self.n = n
         self.get = get
         self.kind = kind
         self.tag = tag
+        self.traj = traj or {}
 
     def __repr__(self):
         return 'ListV(n=%s,%s)' % (self.n, self.tag)
